@@ -20,28 +20,36 @@ CoinsOf(j) == [d \in Denoms |-> IF d \in DOMAIN j THEN j[d] ELSE 0]
 Lit(n) == <<"lit", n>>
 SetOf(seq) == { seq[i] : i \in DOMAIN seq }
 
-\* the logged post-state (only non-default entries are logged)
-Matches(p) ==
-  /\ modBal' = p.modBal
-  /\ \A a \in Addrs : bal'[a] = (IF a \in DOMAIN p.bal THEN CoinsOf(p.bal[a]) ELSE ZeroC)
-  /\ \A a \in Addrs : LockedC(acct'[a], now') = (IF a \in DOMAIN p.locked THEN CoinsOf(p.locked[a]) ELSE ZeroC)
-  /\ \A a \in Addrs :
+\* the logged post-state (only non-default entries are logged), one operator per component
+M_modBal(p) == modBal' = p.modBal
+M_bal(p) == \A a \in Addrs : bal'[a] = (IF a \in DOMAIN p.bal THEN CoinsOf(p.bal[a]) ELSE ZeroC)
+M_locked(p) == \A a \in Addrs : LockedC(acct'[a], now') = (IF a \in DOMAIN p.locked THEN CoinsOf(p.locked[a]) ELSE ZeroC)
+M_acct(p) ==
+  \A a \in Addrs :
        IF a \in DOMAIN p.acct
          THEN /\ acct'[a].kind = p.acct[a].kind
               /\ (acct'[a].kind = "cv" => /\ acct'[a].ov = CoinsOf(p.acct[a].ov) /\ acct'[a].start = p.acct[a].start /\ acct'[a].end = p.acct[a].end
                                            /\ acct'[a].dv = p.acct[a].dv /\ acct'[a].df = p.acct[a].df)
          ELSE acct'[a].kind = "none"
-  /\ \A o \in Addrs :
+M_pools(p) ==
+  \A o \in Addrs :
        IF o \in DOMAIN p.pools
          THEN /\ Len(pools'[o]) = Len(p.pools[o])
               /\ \A i \in DOMAIN pools'[o] : /\ pools'[o][i].name = p.pools[o][i].name /\ pools'[o][i].init = p.pools[o][i].init
                                              /\ pools'[o][i].sent = p.pools[o][i].sent /\ pools'[o][i].withdrawn = p.pools[o][i].withdrawn
                                              /\ pools'[o][i].lockEnd = p.pools[o][i].lockEnd /\ pools'[o][i].genesis = p.pools[o][i].genesis
          ELSE pools'[o] = <<>>
+M_traces(p) ==
   /\ \A a \in Addrs : traces'[a].has = (a \in DOMAIN p.traces)
   /\ \A a \in DOMAIN p.traces : /\ traces'[a].genesis = p.traces[a].genesis /\ traces'[a].fromPool = p.traces[a].fromPool /\ traces'[a].fromAcc = p.traces[a].fromAcc
+M_summary(p) ==
   /\ Summary(FALSE)' = [all |-> p.summary.all, pools |-> p.summary.pools, accounts |-> p.summary.accounts, delegated |-> p.summary.delegated]
   /\ Summary(TRUE)' = [all |-> p.gsummary.all, pools |-> p.gsummary.pools, accounts |-> p.gsummary.accounts, delegated |-> p.gsummary.delegated]
+Matches(p) == M_modBal(p) /\ M_bal(p) /\ M_locked(p) /\ M_acct(p) /\ M_pools(p) /\ M_traces(p) /\ M_summary(p)
+\* diagnosis of a rejected line (second run with DiagLine set to it): which components of the logged event the specification does not reproduce
+CONSTANT DiagLine
+Diag(p, okSame) == PrintT(ToJson([diag |-> [ok |-> okSame, modBal |-> M_modBal(p), bal |-> M_bal(p), locked |-> M_locked(p), acct |-> M_acct(p),
+                                             pools |-> M_pools(p), traces |-> M_traces(p), summary |-> M_summary(p)]]))
 
 TrReset ==
   /\ IsEv("reset")
@@ -54,7 +62,7 @@ TrConfigure == IsEv("configure") /\ Configure(SetupById(TraceLog[l].setup)) /\ l
 
 TrAdvance == IsEv("advance") /\ Advance(TraceLog[l].d) /\ l' = l + 1
 
-TrDelegate == IsEv("delegate") /\ Delegate(TraceLog[l].a, Lit(TraceLog[l].amt)) /\ Matches(TraceLog[l].post) /\ l' = l + 1
+TrDelegate == IsEv("delegate") /\ Delegate(TraceLog[l].a, Lit(TraceLog[l].amt)) /\ (IF l = DiagLine THEN Diag(TraceLog[l].post, TRUE) ELSE Matches(TraceLog[l].post)) /\ l' = l + 1
 
 TrMsg ==
   /\ IsEv("msg")
@@ -68,9 +76,10 @@ TrMsg ==
             [] e.m = "move" -> Apply(DoMove(e.from, e.to), [name |-> "move", x |-> [m |-> "move", from |-> e.from, to |-> e.to]])
             [] e.m = "movedenoms" -> Apply(DoMoveDenoms(e.from, e.to, SetOf(e.ds)), [name |-> "movedenoms", x |-> [m |-> "movedenoms", from |-> e.from, to |-> e.to, ds |-> SetOf(e.ds)]])
             [] OTHER -> FALSE
-       /\ act'.ok = e.ok
-       /\ Matches(e.post)
-       /\ (e.m = "withdraw" /\ e.ok) => act'.out.paid = e.paid
+       /\ IF l = DiagLine THEN Diag(e.post, act'.ok = e.ok)
+          ELSE /\ act'.ok = e.ok
+               /\ Matches(e.post)
+               /\ (e.m = "withdraw" /\ e.ok) => act'.out.paid = e.paid
   /\ l' = l + 1
 
 TraceNext == TrReset \/ TrConfigure \/ TrAdvance \/ TrDelegate \/ TrMsg
